@@ -246,7 +246,7 @@ fn dated_pairing_3_3() {
 //
 // The models read a prefix of at most PREFIX bounds from each (lazy) bound iterator - the hint arm hands over a
 // twelve-year window of which only the first years can matter - and evaluate the contract on the prefix.  That the
-// prefix decides the answer is itself an obligation (`...bounds_beyond_the_first_four_cannot_matter`): it fails if the
+// prefix decides the answer is itself an obligation (`MODEL...bounds_beyond_the_first_four_cannot_matter`): it fails if the
 // contract would have to look at a bound that was not read.
 
 const PREFIX: usize = 4;
@@ -303,10 +303,12 @@ pub(crate) fn is_open_from_bounds_contract(
     bounds_end: impl IntoIterator<Item = NaiveDate>,
 ) -> bool {
     let ((s, s_ex), (e, e_ex)) = (drain_prefix(bounds_start), drain_prefix(bounds_end));
-    // precondition of the pairing contract: established by the caller
-    vpost!("C01.dated.caller_passes_strictly_increasing_bounds", s.strictly_increasing() && e.strictly_increasing());
+    // precondition of the pairing contract: established by the caller.  `MODEL.` obligations state that the contract
+    // model applies; when one fails the modular argument is inconclusive (the real callee may well cope), so the
+    // check reports *undecided* (exit 2), never a violation
+    vpost!("MODEL.dated.is_open_caller_passes_strictly_increasing_bounds", s.strictly_increasing() && e.strictly_increasing());
     let decided = deciding_interval_on_prefix(date, &s, s_ex, &e, e_ex);
-    vpost!("C01.dated.bounds_beyond_the_first_four_cannot_matter", decided.is_ok());
+    vpost!("MODEL.dated.is_open_bounds_beyond_the_first_four_cannot_matter", decided.is_ok());
     match decided {
         Ok(Some((start, _))) => start <= date,
         _ => false,
@@ -319,9 +321,9 @@ pub(crate) fn next_change_from_bounds_contract(
     bounds_end: impl IntoIterator<Item = NaiveDate>,
 ) -> NaiveDate {
     let ((s, s_ex), (e, e_ex)) = (drain_prefix(bounds_start), drain_prefix(bounds_end));
-    vpost!("C02.dated.caller_passes_strictly_increasing_bounds", s.strictly_increasing() && e.strictly_increasing());
+    vpost!("MODEL.dated.next_change_caller_passes_strictly_increasing_bounds", s.strictly_increasing() && e.strictly_increasing());
     let decided = deciding_interval_on_prefix(date, &s, s_ex, &e, e_ex);
-    vpost!("C02.dated.bounds_beyond_the_first_four_cannot_matter", decided.is_ok());
+    vpost!("MODEL.dated.next_change_bounds_beyond_the_first_four_cannot_matter", decided.is_ok());
     match decided {
         Ok(Some((start, end))) => {
             if start <= date { end.succ_opt().unwrap_or(date_end()) } else { start }
